@@ -25,28 +25,35 @@ import (
 
 type Cred struct {
 	Kind string // "none" | "basic" | "post" | "assertion"
-	ID   string
+	ID   string // basic: header id; post: form client_id
 	Sec  string
 	// assertion: Iss = claimed issuer/subject; Valid = signed with the key registered for Iss
 	// and well-formed; Defect says how an invalid one was broken.
 	Iss    string
 	Valid  bool
 	Defect string
+	// a second identity in the form fields, next to a Basic header or an assertion
+	FormID  string
+	FormSec string
 }
 
 func (c Cred) Coq() string {
+	basic, id, sec, as := emit.None, "", "", emit.None
 	switch c.Kind {
 	case "basic":
-		return emit.Ctor("Basic", emit.Str(c.ID), emit.Str(c.Sec))
+		basic = emit.Some(emit.Pair(emit.Str(c.ID), emit.Str(c.Sec)))
+		id, sec = c.FormID, c.FormSec
 	case "post":
-		return emit.Ctor("Post", emit.Str(c.ID), emit.Str(c.Sec))
+		id, sec = c.ID, c.Sec
 	case "assertion":
+		id, sec = c.FormID, c.FormSec
 		if c.Valid {
-			return emit.Ctor("Assertion", emit.Some(emit.Str(c.Iss)))
+			as = emit.Some(emit.Some(emit.Str(c.Iss)))
+		} else {
+			as = emit.Some(emit.None)
 		}
-		return emit.Ctor("Assertion", emit.None)
 	}
-	return "NoCred"
+	return emit.Ctor("MkCred", basic, emit.Str(id), emit.Str(sec), as)
 }
 
 type Op struct {
@@ -309,15 +316,22 @@ func Assertion(iss string, defect string) string {
 }
 
 func (w *World) applyCred(c Cred, form url.Values) []string {
+	setForm := func(id, sec string) {
+		if id != "" {
+			form.Set("client_id", id)
+		}
+		if sec != "" {
+			form.Set("client_secret", sec)
+		}
+	}
 	switch c.Kind {
 	case "basic":
+		setForm(c.FormID, c.FormSec)
 		return []string{c.ID, c.Sec}
 	case "post":
-		form.Set("client_id", c.ID)
-		if c.Sec != "" {
-			form.Set("client_secret", c.Sec)
-		}
+		setForm(c.ID, c.Sec)
 	case "assertion":
+		setForm(c.FormID, c.FormSec)
 		d := c.Defect
 		if c.Valid {
 			d = ""
